@@ -381,3 +381,12 @@ def i8(ctx):
 
 
 RULES.append(i8)
+
+
+@rule("P5", doc="work-list handler pairing and self-symmetry derivation (shared with C02.P5 / P6): a re-canonicalised node that collides with an existing one is handed to the congruence step — also inside one class, where the collision is the evidence for a symmetry that decides whether a later term is already represented")
+def p5(ctx):
+    c02.p5(ctx)
+    c02.p6(ctx)
+
+
+RULES.append(p5)
